@@ -10,12 +10,14 @@ def fh(tok):
     return float.fromhex(tok)
 
 
-def parse(trace):
+def parse(trace, keep_bcastdst=False):
     out = []
     for l in trace:
         t = l.split()
         if not t:
             continue
+        if not keep_bcastdst and t[0] == "act" and t[2] == "bcastdst":
+            t = [t[0], t[1], "bcast", t[3], t[-1]]      # a broadcast whatever its destination field says
         out.append(t)
     return out
 
@@ -554,7 +556,7 @@ def mon_C08(sc, trace):
     rng, delay, fail = sc["med"]
     nn = len(sc["nodes"])
     T = has(sc, "T")
-    P = parse(trace)
+    P = parse(trace, keep_bcastdst=True)
     exp = defaultdict(list)       # (dst, msg) -> [delivery times expected]
     cur = None
     for t in P:
@@ -579,6 +581,18 @@ def mon_C08(sc, trace):
                         exp[key].pop(0)
                     else:
                         v.append("C08: node %d received message %s that was not addressed to it (or once too often)" % (n, t[4]))
+        elif t[0] == "act" and cur is not None and t[2] == "bcastdst":
+            n, now = int(t[1]), cur[1]
+            due = now + delay if delay > 0 else now
+            if int(t[4]) == n:
+                if t[-1] != "errcomm":
+                    v.append("C08: node %d broadcast naming itself as destination did not raise (%s)" % (n, t[-1]))
+            elif t[-1] != "ok":
+                v.append("C08: node %d broadcast (destination field %s) raised %s" % (n, t[4], t[-1]))
+            else:
+                for d in range(nn):
+                    if d != n:
+                        exp[(d, int(t[3]))].append(due)
         elif t[0] == "act" and cur is not None and t[2] in ("send", "bcast"):
             n, now = int(t[1]), cur[1]
             due = now + delay if delay > 0 else now
@@ -610,7 +624,7 @@ def mon_C08(sc, trace):
                 cur = int(t[1])
             elif t[0] == "act" and t[-1] == "ok" and t[2] == "send" and t[4] != "none":
                 late[(int(t[4]), int(t[3]))] += 1
-            elif t[0] == "act" and t[-1] == "ok" and t[2] == "bcast":
+            elif t[0] == "act" and t[-1] == "ok" and t[2] in ("bcast", "bcastdst"):
                 for d in range(nn):
                     if d != int(t[1]):
                         late[(d, int(t[3]))] += 1
@@ -636,67 +650,79 @@ def _positions_timeline(sc, P):
 
 def mon_C09(sc, trace, draws_pass=None):
     """delivery iff within the sender's current range at the positions of the send instant;
-    `draws_pass(k)` tells whether the k-th attempted copy survives the loss draw (None = loss-free)."""
+    `draws_pass(k)` tells whether the k-th attempted copy survives the loss draw (None = loss-free).
+    Positions change when a mobility update executes, which the trace shows only through the
+    telemetry delivered afterwards: a send made at the very time of an update whose telemetry has
+    not been seen yet may have happened before or after the move; it is judged only when both
+    readings agree."""
     v = []
     if not has(sc, "C"):
         return v
     rng0, delay, fail = sc["med"]
     if fail > 0 and draws_pass is None:
         return v
+    M_, T = has(sc, "M"), has(sc, "T")
+    if M_ and not T:
+        return v
     nn = len(sc["nodes"])
+    rate = sc["mob"][0]
     P = parse(trace)
     tl = _positions_timeline(sc, P)
     pos = [tuple(nd["pos"]) for nd in sc["nodes"]]
     seen = [0] * nn
-    stale = False
+    learned = 0                      # number of mobility updates whose positions are known
+    next_tick = 0.0 + rate
     rng = [rng0] * nn
     exp = defaultdict(int)
-    unexpected_ok = defaultdict(int)
+    maybe = defaultdict(int)
     cur = None
     k = 0
     dur = sc["dur"]
-    M = has(sc, "M")
     for t in P:
         if t[0] == "cb":
             n, tm, kind = int(t[1]), fh(t[2]), t[3]
             cur = (n, tm)
             if kind == "telem":
                 seen[n] += 1
-                idx = seen[n] - 1
-                # a mobility update moves all nodes at once: learn every node's position of this update
-                stale = False
-                for m in range(nn):
-                    if len(tl[m]) > idx:
-                        pos[m] = tl[m][idx]
-                    elif M:
-                        stale = True
+                if seen[n] > learned:
+                    learned = seen[n]
+                    next_tick = tm + rate
+                    for m in range(nn):
+                        if len(tl[m]) >= learned:
+                            pos[m] = tl[m][learned - 1]
             elif kind == "packet" and t[4].isdigit():
                 key = (n, int(t[4]))
                 if exp[key] > 0:
                     exp[key] -= 1
-                elif unexpected_ok[key] > 0:
-                    unexpected_ok[key] -= 1
+                elif maybe[key] > 0:
+                    maybe[key] -= 1
                 else:
                     v.append("C09: node %d received message %s although it was out of the sender's range at send time "
                              "(or was never sent to it)" % (n, t[4]))
         elif t[0] == "act" and cur is not None and t[-1] == "ok":
             n, now = int(t[1]), cur[1]
-            if t[2] == "range" and has(sc, "C"):
+            if t[2] == "range":
                 rng[n] = fh(t[3])
             elif t[2] in ("send", "bcast"):
                 dsts = [int(t[4])] if t[2] == "send" else [d for d in range(nn) if d != n]
+                ambiguous = M_ and now == next_tick
                 for d in dsts:
                     survives = True if fail <= 0 else draws_pass(k)
                     k += 1
                     due = now + delay if delay > 0 else now
-                    if stale:
-                        unexpected_ok[(d, int(t[3]))] += 1
-                        continue
                     inr = _py_sq(pos[n], pos[d]) <= rng[n] ** 2
-                    if inr and survives and (dur is None or not has(sc, "T") or due <= dur):
+                    if ambiguous:
+                        if len(tl[n]) > learned and len(tl[d]) > learned:
+                            inr2 = _py_sq(tl[n][learned], tl[d][learned]) <= rng[n] ** 2
+                        else:
+                            inr2 = None
+                        if inr2 is None or inr2 != inr:
+                            maybe[(d, int(t[3]))] += 1
+                            continue
+                    if inr and survives and (dur is None or due <= dur):
                         exp[(d, int(t[3]))] += 1
     done = P and P[-1][0] == "end" and P[-1][1] == "done" and sc["maxit"] is None and sc["drv"][0] == "run"
-    if done and has(sc, "T"):
+    if done and T:
         fin = next((i for i, t in enumerate(P) if t[0] == "cb" and t[3] == "finish"), len(P))
         late = defaultdict(int)
         for t in P[fin:]:
